@@ -1,5 +1,5 @@
 """C14 — observers are pure; copy / deepcopy / pickle faithful."""
-AREAS = ["varint", "single", "msg"]
+AREAS = ["varint", "single", "msg", "msgattr"]
 LEVEL = "other"
 EXPLANATION = (
     "dump, __len__, __bytes__, SerializeToString carry the frame postcondition 'observer-frame': the effective value of "
